@@ -1029,4 +1029,80 @@ def distribution(cases, impl):
                 inc("udp4_checksum_ffff")
         if " gp=err" in o:
             inc("gp_err")
+        # --- counters asked for by the second audit
+        if op == "ip6" and h not in ("nil", "err", "panic", "hang") and len(h) >= 96:
+            f = bytes.fromhex(h)
+            u = bytearray(f[40:])
+            u[6:8] = b"\0\0"
+            S = csum_words(bytes(f[8:40])) + len(u) + 17 + csum_words(bytes(u))
+            if (S >> 16) + (S & 0xFFFF) >= 0x10000:
+                inc("udp6_sum_needs_second_fold")
+        if op in ("ip4", "udp4", "wrap", "pool", "resolved") and h not in ("nil", "err", "panic", "hang") and len(h) >= 40:
+            f = bytearray(bytes.fromhex(h)[:20])
+            f[10:12] = b"\0\0"
+            S = csum_words(bytes(f))
+            if (S >> 16) + (S & 0xFFFF) >= 0x10000:
+                inc("ipv4_header_sum_needs_second_fold")
+        if op == "pseq6" and len(t[1]) // 2 == 14 and " ; sd=" in o and len(o.split(" ; sd=")[1].split(" ")[0]) == 28:
+            inc("pseq6_same_length_in_place")
+        if op == "duid6":
+            m = unhx(t[2])
+            i, found = 4, None
+            while i + 4 <= len(m):
+                c, l = struct.unpack(">HH", m[i:i + 4])
+                if i + 4 + l > len(m):
+                    break
+                if c == 2:
+                    found = l
+                    break
+                i += 4 + l
+            if found is not None and found == (0 if t[1] == "-" else len(t[1]) // 2):
+                inc("duid6_same_length_in_place")
+        if op == "lt6":
+            m = unhx(t[3])
+            i = 4
+            while i + 4 <= len(m):
+                c, l = struct.unpack(">HH", m[i:i + 4])
+                if i + 4 + l > len(m):
+                    break
+                if c in (3, 25) and l >= 12:
+                    j, body = 12, m[i + 4:i + 4 + l]
+                    while j + 4 <= len(body):
+                        c2, l2 = struct.unpack(">HH", body[j:j + 4])
+                        if j + 4 + l2 > len(body):
+                            break
+                        if c2 in (5, 26):
+                            inc("lt6_nested_iaaddr_or_iaprefix")
+                        if c2 in (3, 25):
+                            inc("lt6_ia_inside_ia")
+                        j += 4 + l2
+                i += 4 + l
+        if op in ("ser6", "resp6"):
+            ex, k = [], len(t) - 1
+            while k > 0 and t[k].count(",") == 1 and t[k].split(",")[0].isdigit() and t[k - 1] != "nil" and not (t[k - 1].isdigit() and int(t[k - 1]) == len(ex)):
+                ex.append(t[k])
+                k -= 1
+            if k > 0 and t[k].count(",") == 1 and t[k - 1].isdigit() and int(t[k - 1]) == len(ex) + 1:
+                ex.append(t[k])
+            if any(int(x.split(",")[0]) in (0, 1, 2, 3, 5, 13, 23, 25, 26) for x in ex):
+                inc(op + "_extra_collides_with_builtin")
+        if op in ("pool", "resolved"):
+            i0 = 9 if op == "pool" else 10
+            nd = int(t[i0])
+            if any(x == "nil" or len(x) not in (8, 32) or (len(x) == 32 and not x.startswith("00000000000000000000ffff")) for x in t[i0 + 1:i0 + 1 + nd]):
+                inc("reply_non_ipv4_dns_entry")
+            mask = t[7] if op == "pool" else t[8]
+            if mask == "-" or len(mask) != 8:
+                inc("reply_non_4_byte_mask")
+            if "gp=" in o and "," in o.split("gp=")[1]:
+                for x in o.split("gp=")[1].split(",", 3)[3].split("."):
+                    if ":" in x and x.split(":")[0] in ("1", "3", "6", "54") and x.split(":")[1] == "-":
+                        inc("reply_zero_length_address_option")
+                        break
+        if op in ("o82ins", "relay4") and t[1 if op == "o82ins" else 2] not in ("keep", "drop"):
+            pkt = unhx(t[-1])
+            if _tail_kind(pkt) == "truncated" and "gp=" in o:
+                g = o.split("gp=")[1].split(" ")[0]
+                if g != "err" and "82" not in g.split("."):
+                    inc("truncated_tail_swallows_relay_option82")
     return d
